@@ -638,6 +638,8 @@ package controller
 //@   ensures [C12] err == nil ==> nScans == old(nScans) + len(c.Opts.NodeGroups)
 //@   ensures [C19] forall k :: old(Jlen) <= k && k < Jlen && Jkind[k] == C_DELNODE && isNotInGroup(Jerr[k]) ==> isNotInGroup(err)
 //@   ensures [C03] err == nil ==> (forall i :: 0 <= i && i < len(c.Opts.NodeGroups) && c.Opts.NodeGroups[i].MinNodes == 0 && c.Opts.NodeGroups[i].MaxNodes == 0 ==> c.nodeGroups[c.Opts.NodeGroups[i].Name].Opts.MinNodes == cmin(c.Opts.NodeGroups[i].CloudProviderGroupName) && c.nodeGroups[c.Opts.NodeGroups[i].Name].Opts.MaxNodes == cmax(c.Opts.NodeGroups[i].CloudProviderGroupName))
+// C11/C12: a scan never changes any group's own dry-mode flag (so one group's dry mode cannot leak into another's)
+//@   ensures [C11,C12] forall i :: 0 <= i && i < len(c.Opts.NodeGroups) ==> c.nodeGroups[c.Opts.NodeGroups[i].Name].Opts.DryMode == old(c.nodeGroups[c.Opts.NodeGroups[i].Name].Opts.DryMode)
 // C03/C04: ... and only then: a group configured with bounds of its own keeps them (the cloud group's bounds never replace a configured max_nodes)
 //@   ensures [C03,C04] err == nil ==> (forall i :: 0 <= i && i < len(c.Opts.NodeGroups) && !(c.Opts.NodeGroups[i].MinNodes == 0 && c.Opts.NodeGroups[i].MaxNodes == 0) ==> c.nodeGroups[c.Opts.NodeGroups[i].Name].Opts.MinNodes == old(c.nodeGroups[c.Opts.NodeGroups[i].Name].Opts.MinNodes) && c.nodeGroups[c.Opts.NodeGroups[i].Name].Opts.MaxNodes == old(c.nodeGroups[c.Opts.NodeGroups[i].Name].Opts.MaxNodes))
 //@ loop #0
@@ -651,6 +653,7 @@ package controller
 //@   invariant nScans == old(nScans) + #i
 //@   invariant nBuildFail == old(nBuildFail)
 //@   invariant [C19] forall k :: old(Jlen) <= k && k < Jlen && Jkind[k] == C_DELNODE ==> !isNotInGroup(Jerr[k])
+//@   invariant [C11,C12] forall i :: 0 <= i && i < len(c.Opts.NodeGroups) ==> c.nodeGroups[c.Opts.NodeGroups[i].Name].Opts.DryMode == old(c.nodeGroups[c.Opts.NodeGroups[i].Name].Opts.DryMode)
 //@   invariant [C03,C04] forall i :: 0 <= i && i < len(c.Opts.NodeGroups) && !(c.Opts.NodeGroups[i].MinNodes == 0 && c.Opts.NodeGroups[i].MaxNodes == 0) ==> c.nodeGroups[c.Opts.NodeGroups[i].Name].Opts.MinNodes == old(c.nodeGroups[c.Opts.NodeGroups[i].Name].Opts.MinNodes) && c.nodeGroups[c.Opts.NodeGroups[i].Name].Opts.MaxNodes == old(c.nodeGroups[c.Opts.NodeGroups[i].Name].Opts.MaxNodes)
 //@   invariant [C03] forall i :: 0 <= i && i < #i && c.Opts.NodeGroups[i].MinNodes == 0 && c.Opts.NodeGroups[i].MaxNodes == 0 ==> c.nodeGroups[c.Opts.NodeGroups[i].Name].Opts.MinNodes == cmin(c.Opts.NodeGroups[i].CloudProviderGroupName) && c.nodeGroups[c.Opts.NodeGroups[i].Name].Opts.MaxNodes == cmax(c.Opts.NodeGroups[i].CloudProviderGroupName)
 
@@ -719,8 +722,9 @@ package controller
 // starts from; the configuration handed in is not written (min/max discovery goes into the state's own copy).
 //@ func NewController(opts, stopChan) (c, err)
 //@   requires opts.CloudProviderBuilder != nil && (forall i :: 0 <= i && i < len(opts.NodeGroups) ==> durCacheOK(elemref(opts.NodeGroups, i)))
-//@   requires [C03,C04] forall i, j :: 0 <= i && i < j && j < len(opts.NodeGroups) ==> opts.NodeGroups[i].Name != opts.NodeGroups[j].Name
+//@   requires [C03,C04,C11] forall i, j :: 0 <= i && i < j && j < len(opts.NodeGroups) ==> opts.NodeGroups[i].Name != opts.NodeGroups[j].Name
 //@   modifies nBuildFail
+//@   ensures [C11] err == nil ==> c.Opts.DryMode == opts.DryMode && (forall i :: 0 <= i && i < len(opts.NodeGroups) ==> c.nodeGroups[opts.NodeGroups[i].Name].Opts.DryMode == opts.NodeGroups[i].DryMode)
 //@   ensures err == nil ==> c != nil && fresh(c) && ctlInv(c)
 // C03/C04: the configuration itself is never written (auto-discovery is decided from it on every scan), and each
 // group's state starts with the cloud group's bounds exactly when both configured bounds are 0, else with the configured ones
@@ -728,5 +732,6 @@ package controller
 //@   ensures [C03,C04] err == nil ==> (forall i :: 0 <= i && i < len(opts.NodeGroups) ==> c.nodeGroups[opts.NodeGroups[i].Name].Opts.MinNodes == (opts.NodeGroups[i].MinNodes == 0 && opts.NodeGroups[i].MaxNodes == 0 ? cmin(opts.NodeGroups[i].CloudProviderGroupName) : opts.NodeGroups[i].MinNodes) && c.nodeGroups[opts.NodeGroups[i].Name].Opts.MaxNodes == (opts.NodeGroups[i].MinNodes == 0 && opts.NodeGroups[i].MaxNodes == 0 ? cmax(opts.NodeGroups[i].CloudProviderGroupName) : opts.NodeGroups[i].MaxNodes))
 //@ loop #0
 //@   modifies mapof(nodegroupMap)
+//@   invariant [C11] forall j :: 0 <= j && j < #i ==> nodegroupMap[opts.NodeGroups[j].Name].Opts.DryMode == opts.NodeGroups[j].DryMode
 //@   invariant [C03,C04] forall j :: 0 <= j && j < #i ==> nodegroupMap[opts.NodeGroups[j].Name].Opts.MinNodes == (opts.NodeGroups[j].MinNodes == 0 && opts.NodeGroups[j].MaxNodes == 0 ? cmin(opts.NodeGroups[j].CloudProviderGroupName) : opts.NodeGroups[j].MinNodes) && nodegroupMap[opts.NodeGroups[j].Name].Opts.MaxNodes == (opts.NodeGroups[j].MinNodes == 0 && opts.NodeGroups[j].MaxNodes == 0 ? cmax(opts.NodeGroups[j].CloudProviderGroupName) : opts.NodeGroups[j].MaxNodes)
 //@   invariant forall j :: 0 <= j && j < #i ==> has(nodegroupMap, opts.NodeGroups[j].Name) && birth(nodegroupMap[opts.NodeGroups[j].Name]) < now && groupInv(nodegroupMap[opts.NodeGroups[j].Name])
